@@ -41,6 +41,7 @@ REPO = common.vbuild.REPO
 SRC = os.path.join(REPO, "src")
 
 WATCHDOG = 120
+HANG_FACTOR = int(os.environ.get("C10_HANG_FACTOR", "10"))     # second attempt before a hang is reported
 NAT = 24          # atoms of every synthetic system (components use 1..22, the controlled system 1..12)
 T_HIST = 12       # steps of history available to every template
 
@@ -346,12 +347,13 @@ EXTRA_FAMILIES = [
     ("histrest", "colvar {\n  name hv\n  distancePairs {\n    group1 { atomNumbers 1 3 }\n    group2 { atomNumbers 2 4 }\n  }\n}\n"
                  "histogramRestraint {\n colvars hv\n lowerBoundary 0.0\n upperBoundary 40.0\n width 5.0\n gaussianSigma 2.0\n"
                  " refHistogram 0.01 0.02 0.03 0.04 0.05 0.03 0.01 0.01\n forceConstant 2.0\n outputEnergy on\n}\n", "off"),
-    ("abf_hist", ctl.cv_d1() + "abf {\n colvars d1\n fullSamples 2\n historyFreq 4\n outputFreq 2\n writeCZARwindowFile on\n}\n", "same"),
+    ("abf_hist", ctl.cv_d1() + "abf {\n colvars d1\n fullSamples 2\n historyFreq 4\n outputFreq 2\n maxForce 10.0\n integrate on\n}\n", "same"),
+    ("eabf_misc", ctl.cv_d1(extra="  extendedLagrangian on\n  extendedFluctuation 0.25\n  extendedTimeConstant 50\n  extendedLangevinDamping 0\n")
+                  + "abf {\n colvars d1\n fullSamples 2\n CZARestimator on\n writeCZARwindowFile on\n UIestimator on\n outputFreq 2\n}\n", "prev"),
     ("meta_misc", ctl.cv_d1() + "metadynamics {\n colvars d1\n hillWeight 0.5\n newHillFrequency 2\n hillWidth 2.0\n"
-                  " writeFreeEnergyFile on\n keepFreeEnergyFiles on\n writeHillsTrajectory on\n dumpFreeEnergyFile on\n"
-                  " useHillsInterval on\n hillWeightDecay 0\n}\n", "off"),
+                  " writeFreeEnergyFile on\n keepFreeEnergyFiles on\n writeHillsTrajectory on\n keepHills on\n outputFreq 2\n}\n", "off"),
     ("opes_misc", ctl.cv_d1() + "opes_metad {\n colvars d1\n newHillFrequency 2\n barrier 5.0\n gaussianSigma 0.3\n"
-                  " adaptiveSigma off\n pmf on\n pmfHistoryFrequency 4\n outputFreq 2\n printTrajectoryFrequency 1\n}\n", "off"),
+                  " adaptiveSigma off\n pmf on\n pmfColvars d1\n pmfHistoryFrequency 4\n outputFreq 2\n printTrajectoryFrequency 1\n}\n", "off"),
 ]
 
 XL = "  extendedLagrangian on\n  extendedFluctuation 0.25\n  extendedTimeConstant 50\n"
@@ -368,12 +370,13 @@ CVOPT_TEMPLATES = [
     ("corrfunc", ctl.cv_d1(extra="  corrFunc on\n  corrFuncType coordinate\n  corrFuncLength 4\n  corrFuncStride 1\n  corrFuncOffset 0\n"
                                  "  corrFuncNormalize on\n  corrFuncOutputFile cf.dat\n") +
      "harmonic {\n colvars d1\n centers 5.0\n forceConstant 2.0\n}\n", "off"),
-    ("corrfunc_vel", ctl.cv_d1(extra="  corrFunc on\n  corrFuncType velocity\n  corrFuncWithColvar d2\n  corrFuncLength 3\n  corrFuncStride 2\n") +
-     ctl.cv_d2(extra="  outputVelocity on\n") + "harmonic {\n colvars d1\n centers 5.0\n forceConstant 2.0\n}\n", "off"),
+    ("corrfunc_vel", ctl.cv_d2(extra="  outputVelocity on\n") +
+     ctl.cv_d1(extra="  corrFunc on\n  corrFuncType velocity\n  corrFuncWithColvar d2\n  corrFuncLength 3\n  corrFuncStride 2\n") +
+     "harmonic {\n colvars d1\n centers 5.0\n forceConstant 2.0\n}\n", "off"),
     ("tsf", ctl.cv_d1(extra="  timeStepFactor 2\n") + "harmonic {\n colvars d1\n centers 5.0\n forceConstant 2.0\n timeStepFactor 2\n}\n", "off"),
     ("period", ctl.cv_d2(cvc_extra="    period 8.0\n    wrapAround 0.0\n") +
      "metadynamics {\n colvars d2\n hillWeight 0.5\n newHillFrequency 2\n hillWidth 2.0\n}\n", "off"),
-    ("outputs", ctl.cv_d1(extra="  outputValue on\n  outputVelocity on\n  outputTotalForce on\n  outputAppliedForce on\n  outputEnergy on\n"
+    ("outputs", ctl.cv_d1(extra="  outputValue on\n  outputVelocity on\n  outputTotalForce on\n  outputAppliedForce on\n"
                                 "  subtractAppliedForce on\n") + "harmonic {\n colvars d1\n centers 5.0\n forceConstant 2.0\n outputEnergy on\n}\n", "same"),
     ("legacy_walls", ctl.cv_d1(extra="  lowerWall 3.0\n  upperWall 6.0\n  lowerWallConstant 2.0\n  upperWallConstant 2.0\n"), "off"),
 ]
@@ -449,6 +452,10 @@ def enumerate_mutations(H, T):
                     continue
                 out.append(dict(op="set", path=bpath + [i], key=nd["k"], val=nv, obj=obj, kw=nd["k"], cls=vcl, pri=pri,
                                 dk=(("scaffold", obj, nd["k"].lower(), vcl) if scaffold else None)))
+        for i, nd in enumerate(ch):
+            if "ch" not in nd and not (obj == "module" and T["kind"] != "module"):
+                out.append(dict(op="del", path=bpath + [i], key=nd["k"], val="", obj=obj, kw=nd["k"], cls="absent", pri=0,
+                                dk=(("scaffold", obj, nd["k"].lower(), "absent") if scaffold else None)))
         # keywords of the class that parses this block, absent from the template
         if T["kind"] == "comp" and obj in ("module", "colvar"):
             kws = {}
@@ -504,7 +511,10 @@ def apply_mutations(nodes, muts):
             node_at(t, m["path"])["ch"] = clone(m["val"])
         elif m["op"] == "add":
             adds.append(m)
-    for m in adds:     # additions last: they do not shift the indices used by the other operations
+        elif m["op"] == "del":
+            node_at(t, m["path"])["k"] = "#"      # turned into a comment line: indices of the siblings stay valid
+    adds.sort(key=lambda m: 0 if m["path"] else 1)
+    for m in adds:     # additions last (module-level ones at the very end): they shift no index used by the others
         ch = children_at(t, m["path"])
         nd = {"k": m["key"], "v": m["val"]}
         if m["path"]:
@@ -609,6 +619,18 @@ def report_kind(err):
     return None
 
 
+def clean_fn(fn):
+    """'void colvarparse::mark_key_set_user<bool>(std::string const&, ...)' -> 'colvarparse::mark_key_set_user'"""
+    fn = re.sub(r"^\(anonymous namespace\)::", "", fn.strip())
+    prev = None
+    while prev != fn:                     # drop template arguments, innermost first
+        prev = fn
+        fn = re.sub(r"<[^<>]*>", "", fn)
+    fn = fn.split("(")[0].strip()
+    fn = fn.split()[-1] if fn.split() else fn
+    return fn[:70]
+
+
 def frame_of(err):
     """innermost frame that lies in the sources under test:  function@file"""
     for line in err.splitlines():
@@ -618,14 +640,10 @@ def frame_of(err):
         m = re.search(r"(\S*/src/(colvar\w*\.(?:cpp|h|cc)))[:,]", ls)
         if not m or not m.group(1).startswith(SRC):
             continue
-        fn = ls
-        mi = re.search(r" in (.*?) (?:at )?\S*/src/", ls)
-        if mi:
-            fn = mi.group(1)
-        fn = re.sub(r"^\(anonymous namespace\)::", "", fn)
-        fn = re.sub(r" \(.*$", "", fn)          # gdb: "name (args)"
-        fn = fn.split("(")[0].strip().replace(" ", "")
-        return "%s@%s" % (fn[:70], m.group(2))
+        body = re.sub(r"^#\d+\s+(?:0x[0-9a-fA-F]+\s+in\s+)?", "", ls)
+        body = body[:body.index(m.group(1))]
+        body = re.sub(r"\s+at\s*$", "", body)      # gdb: "name (args) at file:line"
+        return "%s@%s" % (clean_fn(body), m.group(2))
     return "?"
 
 
@@ -919,11 +937,11 @@ def run(tier, replay):
         r, ev, sp = run_scn(exe, scenario(T, cfgtext, cs["nsteps"], cs["vmd"], wd), wd, "case", timeout)
         j = judge(exe, r, ev, sp, wd)
         if j["status"] == "timeout":
-            r, ev, sp = run_scn(exe, scenario(T, cfgtext, cs["nsteps"], cs["vmd"], wd), wd, "case", timeout * 10)
+            r, ev, sp = run_scn(exe, scenario(T, cfgtext, cs["nsteps"], cs["vmd"], wd), wd, "case", timeout * HANG_FACTOR)
             j = judge(exe, r, ev, sp, wd)
             if j["status"] == "timeout":
                 j = dict(status="violation", kind="hang", frame="?", text="no termination within %d s (first attempt %d s); last events: %s"
-                         % (timeout * 10, timeout, json.dumps(ev[-2:])[:600]))
+                         % (timeout * HANG_FACTOR, timeout, json.dumps(ev[-2:])[:600]))
                 last = [e.get("ev") for e in ev][-1:] or ["start"]
                 j["frame"] = "after-" + str(last[0])
         oc = config_outcome(ev)
@@ -939,7 +957,12 @@ def run(tier, replay):
     rejected_single = []
     reached = 0
 
+    pending = []
+
     def record(cs, res, muts):
+        pending.append((cs, res, muts))
+
+    def record_now(cs, res, muts):
         j = res["j"]
         key = "%s:%s:%s" % (j["kind"], j["frame"], "+".join(sorted(mut_label(m) for m in muts)))
         c.bump("violating_cases")
@@ -992,6 +1015,17 @@ def run(tier, replay):
             c.sample({"template": T["name"], "substitution": mut_label(cs["muts"][0]), "value": cs["muts"][0]["val"][:60],
                       "steps": cs["nsteps"], "outcome": res["oc"], "first_error": res["msg"][:120]}, cap=10)
     c.extra["cases_reaching_init"] = reached
+    # one witness per failure site first (the number of replays written is capped), then the other keys
+    sites = {}
+    for item in pending:
+        sites.setdefault((item[1]["j"]["kind"], item[1]["j"]["frame"]), []).append(item)
+    c.extra["violation_sites"] = ["%s:%s (%d cases)" % (k[0], k[1], len(v)) for k, v in sites.items()]
+    rank = 0
+    while any(sites.values()):
+        for k in list(sites):
+            if sites[k]:
+                record_now(*sites[k].pop(0))
+        rank += 1
 
     # ---- part (c)
     nsurv = 150 if tier == "quick" else 900
@@ -1035,7 +1069,7 @@ def run(tier, replay):
         wd = os.path.join(c.work, "sv%d" % i)
         r, ev, sp = run_scn(exe, survivor_scn(S_VARIANTS[vi], ssys, ssteps, R, wd), wd, "surv", WATCHDOG)
         if r["timeout"]:
-            r, ev, sp = run_scn(exe, survivor_scn(S_VARIANTS[vi], ssys, ssteps, R, wd), wd, "surv", WATCHDOG * 10)
+            r, ev, sp = run_scn(exe, survivor_scn(S_VARIANTS[vi], ssys, ssteps, R, wd), wd, "surv", WATCHDOG * HANG_FACTOR)
         j = judge(exe, r, ev, sp, wd) if not r["timeout"] else dict(status="violation", kind="hang", frame="survivor", text="no termination")
         return j, ev, sp, wd
 
